@@ -149,7 +149,7 @@ Definition run_case (s : sdocument) (op : string) (args : list sexp) : list stri
     | d :: SL (Atom _ :: codes) :: _ =>
         match d_document d, d_list (fun x => match x with Atom a => rule_of_code a | _ => None end) codes with
         | Some d, Some plan =>
-            List.app (render_outcome (validate s d plan)) ["HISTORY ok"; "THREADS ok"; "UNCHANGED ok"]
+            List.app (render_outcome (validate s d plan)) ["HISTORY ok"; "SCHEMAS ok"; "THREADS ok"; "UNCHANGED ok"]
         | _, _ => ["BADINPUT"]
         end
     | _ => ["BADINPUT"]
